@@ -809,7 +809,7 @@ def pair_lines(case):
     return [l for l in case.lines if l.startswith('pair ')]
 
 
-def pair_family(ctx, prop_id, mode, profile, n, kinds, rule, extra=None, also_s5=True):
+def pair_family(ctx, prop_id, mode, profile, n, kinds, rule, extra=None, also_s5=True, diff_known=None):
     ob, dis, details = proof_obligations(ctx, prop_id)
     cases = load_cases(ctx, mode, n, profile)
     stats = collections.Counter(); distinct = set()
@@ -822,6 +822,11 @@ def pair_family(ctx, prop_id, mode, profile, n, kinds, rule, extra=None, also_s5
                 kind = re.sub(r'[:\[].*', '', tk[1])
                 if kinds and not any(kind.startswith(k) for k in kinds):
                     continue
+                if tk[2] == 'diff' and diff_known is not None:
+                    sig = diff_known(c, l)
+                    if sig and known_open(prop_id, sig):
+                        stats['known:' + sig] += 1
+                        continue
                 stats[kind + '-' + tk[2]] += 1
                 if tk[2] == 'diff':
                     ctx.violations.append(('%s pair differs: %s (case %s)' % (tk[1], ' '.join(tk[3:])[:160], c.key),
@@ -863,7 +868,27 @@ def c16(ctx):
     rule = ('chains without Reorder/Cluster/Cacheable-family annotations (profile "plain": Shun, Desired, Required, MustConsume, unsatisfiable '
             'inputs, shadowed providers): every excluded provider is deleted from the list and the chain is bound again; compared: bind '
             'verdict, included providers, full trace; the include model is compared with the implementation on both (S5)')
-    return pair_family(ctx, 'C16', 'prune', 'plain', n, ['prune'], rule)
+    def diff_known(c, line):
+        # the base chain contains a provider nothing receives from (open C03 findings F4b / F5); deleting the excluded providers makes the
+        # include pass drop exactly those: same root, other symptom
+        m = re.search(r'included \[([0-9 ]*)\] vs \[([0-9 ]*)\]', line)
+        if not m:
+            return None
+        a = set(m.group(1).split()); b = set(m.group(2).split())
+        vv = v5(c)
+        unj = set()
+        for k in ('unjustified', 'unjustified_f5'):
+            if vv.get(k, '-') != '-':
+                unj |= set(vv[k].split(','))
+        if b <= a and (a - b) and (a - b) <= unj:
+            return 'prune_drops_unjustified'
+        # interface parameters matched through Loose providers: match.go scores a concrete type by the layer of its FIRST provider,
+        # excluded ones included, and the matching is frozen during the elimination rounds (root of the open findings F5 / F4b)
+        for pl in c.provs:
+            if any(x in ('10', '11') for x in pl.get('in', '').split(',')) and any(q.get('loose', '-') != '-' for q in c.provs):
+                return 'prune_interface_rematch'
+        return None
+    return pair_family(ctx, 'C16', 'prune', 'plain', n, ['prune'], rule, diff_known=diff_known)
 
 
 @prop('C14')
@@ -1098,6 +1123,7 @@ def c04(ctx):
         cs = load_cases(ctx, mode, n, prof)
         if cs is not None:
             total += [(mode, c) for c in cs]
+    total = [('corpus', c) for c in load_corpus(ctx, 'C04')] + total
     for mode, c in total:
         b = c.bind.split()
         cls = ' '.join(b[1:3]) if len(b) > 2 and b[1] == 'err' else b[1] if len(b) > 1 else 'none'
